@@ -51,17 +51,23 @@ def private_gocache():
         return None
     os.makedirs(main, exist_ok=True)
     parent = os.path.dirname(main.rstrip("/"))
-    for d in os.listdir(parent):  # left behind by invocations that were killed
+    for d in os.listdir(parent):  # left behind by invocations that were killed: their process is gone
         q = os.path.join(parent, d)
         try:
-            if d.startswith("verif-gocache-") and time.time() - os.path.getmtime(q) > 4 * 3600:
+            if not d.startswith("verif-gocache-"):
+                continue
+            pid = int(d.split("-")[2])
+            if os.path.exists("/proc/%d" % pid):
+                continue  # (another check running at the same time: its cache is in use)
+            if time.time() - os.path.getmtime(q) > 600:
                 shutil.rmtree(q, ignore_errors=True)
-        except OSError:
+        except (OSError, ValueError, IndexError):
             pass
     priv = tempfile.mkdtemp(prefix="verif-gocache-%d-" % os.getpid(), dir=parent)
     if subprocess.run(["cp", "-al", main + "/.", priv + "/"], stdout=subprocess.DEVNULL, stderr=subprocess.DEVNULL).returncode != 0:
         shutil.rmtree(priv, ignore_errors=True)
         return None
+    os.utime(priv, None)  # cp -a gave it the main cache's (old) modification time
     return priv
 
 
